@@ -486,7 +486,18 @@ def _r2(ck: Checker, prog: Program):
     # counting loop: one increment of dt_with_count[<record>.ns.dt_in_seconds] per record (three idioms)
     loops = [st for st in f.node.body if isinstance(st, ast.For)]
     good = False
-    if loops and unparse(loops[0].iter) == "records" and isinstance(loops[0].target, ast.Name) \
+    # the tally: the local dict that is subscripted in the counting loop (whatever it is called)
+    RECS = f.params[0]
+    CNT = "dt_with_count"
+    if loops:
+        subs = [x.value.id for x in ast.walk(loops[0]) if isinstance(x, ast.Subscript) and isinstance(x.value, ast.Name)]
+        dicts = [st.targets[0].id for st in f.node.body if isinstance(st, ast.Assign) and len(st.targets) == 1 and isinstance(st.targets[0], ast.Name)
+                 and ((isinstance(st.value, ast.Call) and call_name(st.value) == "dict" and not st.value.args and not st.value.keywords)
+                      or (isinstance(st.value, ast.Dict) and not st.value.keys))]
+        cand = [d for d in dicts if d in subs]
+        if len(cand) == 1:
+            CNT = cand[0]
+    if loops and unparse(loops[0].iter) == RECS and isinstance(loops[0].target, ast.Name) \
             and not any(isinstance(x, (ast.Break, ast.Continue, ast.Return)) for x in ast.walk(loops[0])):
         lp = loops[0]
         rec = lp.target.id
@@ -496,22 +507,22 @@ def _r2(ck: Checker, prog: Program):
         rest = [st for st in lp.body if not (isinstance(st, ast.Assign) and unparse(st.value) == keytxt and isinstance(st.targets[0], ast.Name))]
 
         def is_inc(x, k):
-            return _is_aug(x, f"dt_with_count[{k}]")
+            return _is_aug(x, f"{CNT}[{k}]")
 
         def is_init(x, k):
-            return isinstance(x, ast.Assign) and unparse(x.targets[0]) == f"dt_with_count[{k}]" and unparse(x.value) == "1"
+            return isinstance(x, ast.Assign) and unparse(x.targets[0]) == f"{CNT}[{k}]" and unparse(x.value) == "1"
         if len(rest) == 1:
             st = rest[0]
             for k in keys:
                 if isinstance(st, ast.Try) and len(st.body) == 1 and is_inc(st.body[0], k) and len(st.handlers) == 1 and unparse(st.handlers[0].type) == "KeyError" \
                         and len(st.handlers[0].body) == 1 and is_init(st.handlers[0].body[0], k) and not st.orelse and not st.finalbody:
                     good = True
-                if isinstance(st, ast.Assign) and unparse(st.targets[0]) == f"dt_with_count[{k}]" and unparse(st.value) in (f"dt_with_count.get({k}, 0) + 1", f"1 + dt_with_count.get({k}, 0)"):
+                if isinstance(st, ast.Assign) and unparse(st.targets[0]) == f"{CNT}[{k}]" and unparse(st.value) in (f"{CNT}.get({k}, 0) + 1", f"1 + {CNT}.get({k}, 0)"):
                     good = True
-                if isinstance(st, ast.If) and unparse(st.test) in (f"{k} in dt_with_count", f"{k} in dt_with_count.keys()") and len(st.body) == 1 and is_inc(st.body[0], k) \
+                if isinstance(st, ast.If) and unparse(st.test) in (f"{k} in {CNT}", f"{k} in {CNT}.keys()") and len(st.body) == 1 and is_inc(st.body[0], k) \
                         and len(st.orelse) == 1 and is_init(st.orelse[0], k):
                     good = True
-                if isinstance(st, ast.If) and unparse(st.test) in (f"{k} not in dt_with_count", f"{k} not in dt_with_count.keys()") and len(st.body) == 1 and is_init(st.body[0], k) \
+                if isinstance(st, ast.If) and unparse(st.test) in (f"{k} not in {CNT}", f"{k} not in {CNT}.keys()") and len(st.body) == 1 and is_init(st.body[0], k) \
                         and len(st.orelse) == 1 and is_inc(st.orelse[0], k):
                     good = True
     if good:
@@ -542,11 +553,11 @@ def _r2(ck: Checker, prog: Program):
         ck.violation(P + "R2", fq, "policies", f"policies handled: {sorted(branches)}; expected {sorted(want)}", loc=f.loc())
         return
     r0 = [x for x in branches["frequency_domain_resampling"].body if isinstance(x, ast.Return)]
-    if len(r0) == 1 and unparse(r0[0].value) == "(records, dt_with_count)":
+    if len(r0) == 1 and unparse(r0[0].value) == f"({RECS}, {CNT})":
         ck.ok(P + "R2", fq, "frequency_domain_resampling keeps every record", nontrivial=False)
     else:
         ck.violation(P + "R2", fq, "frequency_domain_resampling", "the resampling policy does not return all records with their counts", loc=f.loc())
-    R = Resolver(prog, f, inline=False, keep={"dt_with_count"})
+    R = Resolver(prog, f, inline=False, keep={CNT})
     for pol in ("keeping_smallest_time_step", "keeping_majority_time_step"):
         br = branches[pol]
         body = br.body
@@ -570,10 +581,10 @@ def _r2(ck: Checker, prog: Program):
             problems.append(f"the returned time step `{unparse(dkey)}` is not the one the records were selected by (`{unparse(chosen)}`)")
         # ---- the count that is returned
         nval = unparse(dval)
-        count_ok = nval == f"len({lst})" or nval == f"dt_with_count[{unparse(chosen)}]" or (counter is not None and nval == counter)
+        count_ok = nval == f"len({lst})" or nval == f"{CNT}[{unparse(chosen)}]" or (counter is not None and nval == counter)
         if not count_ok and isinstance(dval, ast.Name):
             ndefs = [st for st in body if isinstance(st, ast.Assign) and len(st.targets) == 1 and unparse(st.targets[0]) == dval.id]
-            count_ok = len(ndefs) == 1 and unparse(ndefs[0].value) in (f"len({lst})", f"dt_with_count[{unparse(chosen)}]")
+            count_ok = len(ndefs) == 1 and unparse(ndefs[0].value) in (f"len({lst})", f"{CNT}[{unparse(chosen)}]")
         scan = _majority_scan(body) if pol == "keeping_majority_time_step" else None
         if scan is not None and nval == scan[1] and unparse(chosen) == scan[0]:
             count_ok = True
@@ -585,7 +596,7 @@ def _r2(ck: Checker, prog: Program):
             ck.violation(P + "R2", fq, pol, f"{pol}: retained records/count bookkeeping broken ({'; '.join(problems)})", loc=f.loc(br))
         # ---- the selected time step
         if pol == "keeping_smallest_time_step":
-            D = sp.Symbol("dt_with_count", real=True)
+            D = sp.Symbol(CNT, real=True)
             try:
                 v = canon(R.value(chosen, ret))
             except AnalysisError:
@@ -602,7 +613,7 @@ def _r2(ck: Checker, prog: Program):
                 except AnalysisError:
                     v = None
                 txt = str(v)
-                good = txt in ("max(dt_with_count, attr_get(dt_with_count))", "max(dt_with_count, dt_with_count.get)")
+                good = txt in (f"max({CNT}, attr_get({CNT}))", f"max({CNT}, {CNT}.get)")
             if good:
                 ck.ok(P + "R2", fq, "majority: a time step with the largest count", detail="a most frequent time step")
             else:
